@@ -177,7 +177,7 @@ func (tree *Tree[T]) Remove(pattern string, methods ...string) {
 	} else {
 		for _, m := range methods {
 			switch m {
-			case http.MethodOptions, http.MethodHead: // OPTIONS 不作任何操作，HEAD 由 GET 决定。
+			case http.MethodOptions, http.MethodHead, methodNotAllowed: // OPTIONS 和 405 不作任何操作，HEAD 由 GET 决定。
 			case http.MethodGet:
 				delete(child.handlers, http.MethodHead)
 				fallthrough
